@@ -49,9 +49,31 @@
      wf_needed_multi0). No hypothesis about e_sigok: a "valid signature" is any stack element x
      with e_sigok e k x = true for some key bytes k. The Script model enforces NULLFAIL,
      MINIMALIF (outside SvBase) and minimal numbers unconditionally (Script/Exec.v).
-   NOT yet proved (kept visible): Theorem B in full (an execution that succeeds used a table
-   entry) and e (uniqueness of the dissatisfaction / non-malleability over all stacks). The
-   per-run check enumerates input stacks for those. *)
+   Proved (Proofs/Denot*.v, statements in Properties/TheoremB.v): THEOREM B and its converse -- the
+   Script semantics of an encoded well-typed fragment accepts exactly the witnesses of the
+   denotational relation [R] (every stack, every fragment, every signature version), and the
+   specification's table is exactly the canonical part of that relation.
+   Proved on top of it (Proofs/DenotUniqueDissat.v; EVERY input stack):
+     * e (unique dissatisfaction): for a fragment typed e AND m, under MINIMALIF (any signature
+       version but the base one) and with hash160 injective on acceptable keys, any two
+       dissatisfactions without valid signatures are the same witness [C06_e_unique]; every
+       dissatisfying execution on a stack without valid signatures consumes exactly THE
+       dissatisfaction -- the one the table lists under the empty asset set (C06_d) -- and leaves
+       exactly 0 [C06_e] (for [C06_e]: no raw_pk_h, and the canonical elements [], 01, 32 zero
+       bytes, public keys are not valid signatures).
+       Each hypothesis is necessary:
+         - m: `e` alone is NOT a uniqueness claim.  or_b is typed e unconditionally, by the code and
+           by the specification's table alike; or_b(sha256(h), a:sha256(h)) has two signature-free
+           dissatisfactions [C06_e_needs_m].  What m adds is "both children are e".
+         - MINIMALIF: under the base signature version d:v:1 (typed e, m) is dissatisfied by 0 and by
+           0x80 (and every other false value) [C06_e_needs_minimalif]; a known malleability of
+           P2SH / bare scripts, where MINIMALIF is not even policy for the selector of d: / or_i.
+         - hash160 injectivity: pk_h is typed e and is dissatisfied by any key with the right hash.
+       Hash fragments are typed Unknown, not e: their many dissatisfactions never reach an
+       e+m fragment without a signature next to them (this is what the induction shows).
+   NOT proved: nothing of the C06 predictions remains open at the Script level.  Outside the
+   statements: ill-typed fragments, resource limits (element size 520, ops, stack depth); the
+   K / W variants of [C06_e] are available as [C06_e_unique] only. *)
 From Verif Require Import Exec Ser Ast Types TypeCheck SatSpec ExecLemmas TheoremA.
 From Verif Require Import FrameBase FrameSound FrameDissat.
 
@@ -342,3 +364,75 @@ Example C06_forced_nonvacuous :
   exec sg_env (enc sg_ke sg_forced) (mkSt [[7%N]; []] []) = Ok (mkSt [[]] []) /\
   exec sg_env (enc sg_ke sg_forced) (mkSt [[7%N]; [7%N]] []) = Ok (mkSt [[1%N]] []).
 Proof. exact (conj sg_forced_type sg_forced_runs). Qed.
+
+(* ---- every input stack: e (unique dissatisfaction) ---- *)
+From Verif Require Import DenotSpec DenotMain DenotUniqueDissat.
+
+(* any two signature-free dissatisfactions of an e+m fragment coincide (all base types; K: the
+   witness includes the empty signature; relation [R] = the Script semantics, Properties/TheoremB.v) *)
+Theorem C06_e_unique :
+  forall (e : env) (ke : keyenv) (m : ms) (t : ty),
+  minimalif (e_sv e) = true -> h160_inj e ->
+  type_of m = ROk t -> wf e ke m -> m_nm (t_mall t) = true -> m_dissat (t_mall t) = DUnique ->
+  forall w1 v1 w2 v2, R e ke m false w1 v1 -> R e ke m false w2 v2 -> sigfree e w1 -> sigfree e w2 -> w1 = w2.
+Proof. exact e_unique. Qed.
+Print Assumptions C06_e_unique.
+
+(* relative to one known signature-free dissatisfaction d *)
+Theorem C06_e_every_stack :
+  forall (e : env) (ke : keyenv) (m : ms) (t : ty),
+  minimalif (e_sv e) = true -> h160_inj e ->
+  type_of m = ROk t -> wf e ke m -> c_base (t_corr t) = BB ->
+  m_nm (t_mall t) = true -> m_dissat (t_mall t) = DUnique ->
+  forall d, Rdsat e ke m d -> sigfree e d ->
+  forall st al r, sigfree e st -> exec e (enc ke m) (mkSt st al) = Ok r ->
+  forall v rest, stk r = v :: rest -> truthy v = false -> st = d ++ rest /\ r = mkSt (v :: rest) al.
+Proof. exact e_sound_B. Qed.
+Print Assumptions C06_e_every_stack.
+
+(* THE dissatisfaction is the table's one under the empty asset set *)
+Theorem C06_e :
+  forall (e : env) (ke : keyenv) (m : ms) (t : ty),
+  minimalif (e_sv e) = true -> h160_inj e ->
+  keys_ok e ke -> (forall kbs, e_sigok e kbs [] = false) ->
+  (forall x, sf_elt ke x -> forall k, e_sigok e k x = false) ->
+  type_of m = ROk t -> wf e ke m -> no_multi m -> c_base (t_corr t) = BB -> c_dissat (t_corr t) = true ->
+  m_nm (t_mall t) = true -> m_dissat (t_mall t) = DUnique ->
+  exists d, In d (all_dsat ke A0 m) /\ Forall (sf_elt ke) d /\
+    (forall rest al, exec e (enc ke m) (mkSt (d ++ rest) al) = Ok (mkSt ([] :: rest) al)) /\
+    forall st al r, sigfree e st -> exec e (enc ke m) (mkSt st al) = Ok r ->
+    forall v rest, stk r = v :: rest -> truthy v = false -> st = d ++ rest /\ r = mkSt ([] :: rest) al.
+Proof. exact e_sound_table. Qed.
+Print Assumptions C06_e.
+
+(* `e` without `m` claims nothing: a fragment typed e with two signature-free dissatisfactions *)
+Theorem C06_e_needs_m :
+  (exists t, type_of ue_orb = ROk t /\ c_base (t_corr t) = BB /\ m_dissat (t_mall t) = DUnique /\ m_nm (t_mall t) = false) /\
+  wf (ue_env SvWitnessV0) ue_ke ue_orb /\ minimalif (e_sv (ue_env SvWitnessV0)) = true /\ h160_inj (ue_env SvWitnessV0) /\
+  sigfree (ue_env SvWitnessV0) [zeros32; zeros32] /\ sigfree (ue_env SvWitnessV0) [ue_ff; zeros32] /\
+  exec (ue_env SvWitnessV0) (enc ue_ke ue_orb) (mkSt [zeros32; zeros32] []) = Ok (mkSt [[]] []) /\
+  exec (ue_env SvWitnessV0) (enc ue_ke ue_orb) (mkSt [ue_ff; zeros32] []) = Ok (mkSt [[]] []).
+Proof. exact e_needs_m. Qed.
+Print Assumptions C06_e_needs_m.
+
+(* without MINIMALIF (base signature version) an e+m fragment has several dissatisfactions *)
+Theorem C06_e_needs_minimalif :
+  (exists t, type_of ue_dup = ROk t /\ c_base (t_corr t) = BB /\ m_dissat (t_mall t) = DUnique /\ m_nm (t_mall t) = true) /\
+  wf (ue_env SvBase) ue_ke ue_dup /\ h160_inj (ue_env SvBase) /\
+  sigfree (ue_env SvBase) [[]] /\ sigfree (ue_env SvBase) [[128%N]] /\
+  exec (ue_env SvBase) (enc ue_ke ue_dup) (mkSt [[]] []) = Ok (mkSt [[]] []) /\
+  exec (ue_env SvBase) (enc ue_ke ue_dup) (mkSt [[128%N]] []) = Ok (mkSt [[128%N]] []) /\ truthy [128%N] = false /\
+  exec (ue_env SvWitnessV0) (enc ue_ke ue_dup) (mkSt [[128%N]] []) = Fail.
+Proof. exact e_needs_minimalif. Qed.
+Print Assumptions C06_e_needs_minimalif.
+
+Example C06_e_nonvacuous :
+  (exists t, type_of ue_ord = ROk t /\ c_base (t_corr t) = BB /\ c_dissat (t_corr t) = true /\
+             m_dissat (t_mall t) = DUnique /\ m_nm (t_mall t) = true) /\
+  wf (ue_env SvWitnessV0) ue_ke ue_ord /\ no_multi ue_ord /\
+  minimalif (e_sv (ue_env SvWitnessV0)) = true /\ h160_inj (ue_env SvWitnessV0) /\
+  keys_ok (ue_env SvWitnessV0) ue_ke /\ (forall kbs, e_sigok (ue_env SvWitnessV0) kbs [] = false) /\
+  (forall x, sf_elt ue_ke x -> forall k, e_sigok (ue_env SvWitnessV0) k x = false) /\
+  sigfree (ue_env SvWitnessV0) [[]; []; [5%N]] /\
+  exec (ue_env SvWitnessV0) (enc ue_ke ue_ord) (mkSt [[]; []; [5%N]] []) = Ok (mkSt [[]; [5%N]] []).
+Proof. exact e_nonvacuous. Qed.
